@@ -89,6 +89,78 @@ def default_resolution(ctx):
             rep.ok("C24.R7", "cardillo/force_laws", "no default derived from the initial state in the force-law callbacks", trivial=True)
 
 
+def restart_tolerance(ctx):
+    """A restart hands a state PRODUCED BY A SOLVER back to System.assemble, whose consistency asserts reject |g|, |g_dot|, ... above IS_CLOSE_ATOL.
+    The fixed-step solvers enforce the constraints to their Newton / fixed-point tolerance (SolverOptions defaults) - Moreau only on velocity
+    level.  If the rejection threshold is tighter than the default solver tolerance, a state reached with default options is refused as a new
+    initial state ("Initial conditions do not fulfill g0!") and the restarted run does not exist.  Both numbers are constants in the source."""
+    rep = ctx.rep
+    dfn = ctx.repo.modules.get("cardillo/definitions.py")
+    so = ctx.repo.modules.get("cardillo/solver/solver_options.py")
+    if dfn is None or so is None:
+        raise AnalysisError("cardillo/definitions.py or solver_options.py vanished")
+    def const(mod, name):
+        for n in ast.walk(mod.tree):
+            if isinstance(n, ast.Assign) and any(isinstance(t, ast.Name) and t.id == name for t in n.targets) and isinstance(n.value, ast.Constant):
+                return n.value.value, n
+            if isinstance(n, ast.AnnAssign) and isinstance(n.target, ast.Name) and n.target.id == name and isinstance(n.value, ast.Constant):
+                return n.value.value, n
+        return None, None
+    atol, an = const(dfn, "IS_CLOSE_ATOL")
+    used = any(isinstance(w, ast.Name) and w.id == "IS_CLOSE_ATOL" for w in ast.walk(ctx.repo.get("cardillo/solver/_base.py", "consistent_initial_conditions")))
+    if atol is None or not used:
+        raise AnalysisError("IS_CLOSE_ATOL (threshold of the consistency asserts) not found")
+    for name in ("newton_atol", "fixed_point_atol"):
+        v, vn = const(so, name)
+        if v is None:
+            raise AnalysisError(f"default of SolverOptions.{name} not found")
+        C = "cardillo/definitions.py:IS_CLOSE_ATOL"
+        if atol >= v:
+            rep.ok("C24.R9", C, f"rejection threshold {atol} is not tighter than the default {name} = {v}")
+        else:
+            rep.bad("C24.R9", C, f"IS_CLOSE_ATOL = {atol} < SolverOptions.{name} = {v}", f"the consistency asserts of System.assemble reject constraint residuals above {atol}, but the solvers "
+                    f"enforce them only to the default {name} = {v} (Moreau not at all on position level): a state reached with default options is refused as new initial state "
+                    "(`Initial conditions do not fulfill g0!`), so the restarted run of C24 cannot even start for Rattle, Moreau and BackwardEuler on a constrained system",
+                    f"cardillo/definitions.py:{an.lineno}")
+
+
+def optional_by_none(ctx):
+    """The restart time is an OPTIONAL NUMBER: "not given" is `None`, and 0.0 is a perfectly good time.  `t0 or self.t0` / `t0 if t0 else ...` treat a
+    restart at t0 = 0.0 as "not given" and keep the time of the previous run, so a system that ran from t0 = 1 and is re-initialised with the
+    state of another run at t = 0 continues with prescribed motions and loads evaluated one time unit late."""
+    rep = ctx.rep
+    mod = ctx.repo.module(SYS)
+    n = 0
+    for q, fn in mod.defs().items():
+        if not isinstance(fn, ast.FunctionDef) or not q.startswith("System."):
+            continue
+        args = fn.args.args
+        defaults = dict(zip([a.arg for a in args[len(args) - len(fn.args.defaults):]], fn.args.defaults))
+        optional = {k for k, d in defaults.items() if isinstance(d, ast.Constant) and d.value is None}
+        numeric = {k for k in optional if k in ("t0", "t", "t1", "dt", "q0", "u0") or k.startswith(("la_", "u_dot", "q_dot"))}
+        if not numeric:
+            continue
+        C = f"{SYS}:{q}"
+        for w in ast.walk(fn):
+            bad = None
+            if isinstance(w, ast.BoolOp) and isinstance(w.op, ast.Or) and isinstance(w.values[0], ast.Name) and w.values[0].id in numeric:
+                bad = w.values[0].id
+            if isinstance(w, ast.IfExp) and isinstance(w.test, ast.Name) and w.test.id in numeric:
+                bad = w.test.id
+            if isinstance(w, ast.If) and isinstance(w.test, (ast.Name, ast.UnaryOp)) and isinstance(getattr(w.test, "operand", w.test), ast.Name) \
+                    and getattr(w.test, "operand", w.test).id in numeric:
+                bad = getattr(w.test, "operand", w.test).id
+            if bad:
+                n += 1
+                rep.bad("C24.R8", C, w, f"`{norm_src(w)[:60]}` decides by truthiness whether the optional `{bad}` was given: `{bad} = 0` (a restart at time zero, a zero state) counts as "
+                        "\"not given\" and the previous value is kept", f"{SYS}:{w.lineno}")
+            elif isinstance(w, ast.Compare) and isinstance(w.left, ast.Name) and w.left.id in numeric and any(isinstance(o, (ast.Is, ast.IsNot)) for o in w.ops):
+                n += 1
+                rep.ok("C24.R8", C, f"`{norm_src(w)}`: optional `{w.left.id}` tested against None")
+    if n < 1:
+        raise AnalysisError(f"{SYS}: no test of an optional numeric argument found")
+
+
 def run(ctx):
     rep = ctx.rep
     rep.rule("C24.R1", "body-fixed joint data is not re-derived from new state + once-only world data", 2)
@@ -96,6 +168,10 @@ def run(ctx):
     rep.rule("C24.R3", "set_new_initial_state / deepcopy", 5)
     rep.rule("C24.R4", "contact re-assembly", 2)
     rep.rule("C24.R6", "fields of one tracking state are re-initialised together", 2)
+    rep.rule("C24.R9", "the rejection threshold of the consistency asserts is not tighter than the tolerance the solvers enforce constraints with by default", 2)
+    restart_tolerance(ctx)
+    rep.rule("C24.R8", "optional numeric arguments of System (the restart time t0) are recognised by `is None`, not by truthiness", 1)
+    optional_by_none(ctx)
     rep.rule("C24.R7", "force-law data defaulted from the initial state (l_ref, ...) is resolved once: the guard tests the attribute that is assigned", 3)
     default_resolution(ctx)
     rep.rule("C24.R5", "registration markers (nq, nu, nla_*) are constructor data", 12)
@@ -322,3 +398,7 @@ MUTANTS += [
          new="        if self.l_ref is None:\n            self._l_ref = self.subsystem.l(self.subsystem.t0, self.subsystem.q0)\n        else:\n            self._l_ref = self.l_ref", expect="C24.R7"),
 ]
 NEUTRAL = []
+MUTANTS += [
+    dict(id="c24-r8-seed", canary=True, what="[seeded by sub-agent] set_new_initial_state: `t0 or self.t0`", file=SYS,
+         old="        self.t0 = t0 if t0 is not None else self.t0\n", new="        self.t0 = t0 or self.t0\n", expect="C24.R8"),
+]
